@@ -660,8 +660,9 @@ def check_C12(res):
 
 
 def check_C03(res):
-    res.rule = ('wigm configured as arithmetic=fixed precision=4 must give the dump of wigm-prf on every profile of the domain (the parametric '
-                'rule with a reference rule\'s parameters yields that rule\'s history); distinct = tag sequences')
+    res.rule = ('wigm configured as arithmetic=fixed precision=4 must give the history of wigm-prf on every profile of the domain (the parametric '
+                'rule with a reference rule\'s parameters yields that rule\'s history); Scottish ties on a tie-rich domain against an independent '
+                'reading of 49(2)(3)/51(2); distinct = tag sequences')
 
     def per(E, data, rule, opts, p, exc=None):
         if exc is not None:
@@ -678,7 +679,21 @@ def check_C03(res):
              for x in E2.erecord['actions'] if not x['msg'].startswith('Add ')]
         if a != b:
             res.violation('wigm with fixed precision 4 does not reproduce the wigm-prf history', H.wit(data, 'wigm-prf', {}))
-    H.run_counts(res, ['wigm-prf'], res.tier, res.seed, per, with_withdrawn=True, grid=False)
+    H.run_counts(res, ['wigm-prf'], res.tier, res.seed, per, with_withdrawn=True, grid=False, time_budget=10 if res.tier == 'quick' else 300)
+    # Scottish order 49(2)(3) / 51(2): tie procedure against an independent reading of the clause
+    ties = H.scottish_ties_factory(res)
+    t0 = time.time()
+    for p in H.tie_rich_profiles('thorough', res.seed):
+        if time.time() - t0 > (15 if res.tier == 'quick' else 300):
+            break
+        data = H.pdata(p)
+        try:
+            E = H.counted(data, 'scotland', {})
+        except Exception:
+            continue
+        res.evaluations += 1
+        res.sig(('scotland', H.action_sig(E)))
+        ties(E, data, 'scotland', {}, p)
 
 
 CHECKS = {'C14': check_C14, 'C12': check_C12, 'C03': check_C03, 'C15': check_C15, 'C16': check_C16, 'C18': check_C18, 'C19': check_C19}
